@@ -9,8 +9,20 @@ use serde_json::{json, Value};
 
 pub struct ExpSpec {
     pub cfg: Cfg,
+    /// operations executed before the explored history (not counted in the depth)
+    pub prefix: Vec<Op>,
     pub alphabet: Vec<Op>,
     pub depth: usize,
+}
+
+impl ExpSpec {
+    pub fn new(cfg: Cfg, alphabet: Vec<Op>, depth: usize) -> Self {
+        ExpSpec { cfg, prefix: vec![], alphabet, depth }
+    }
+    pub fn with_prefix(mut self, p: Vec<Op>) -> Self {
+        self.prefix = p;
+        self
+    }
 }
 
 pub fn is_thorough(tier: &str) -> bool {
@@ -57,7 +69,7 @@ pub fn run_explorer(
         let remaining = deadline.saturating_duration_since(now);
         let share = remaining / (nspecs - si) as u32;
         let limits = Limits { deadline: Some(now + share.max(Duration::from_millis(200))), ..Default::default() };
-        let (st, viols) = explore::explore(prop, &spec.cfg, &spec.alphabet, spec.depth, checker, &limits);
+        let (st, viols) = explore::explore(prop, &spec.cfg, &spec.prefix, &spec.alphabet, spec.depth, checker, &limits);
         eprintln!(
             "[{prop}] {}: depth {} (completed {}), alphabet {}, states {}, transitions {}, {:.1}s{}",
             spec.cfg.name,
@@ -73,6 +85,7 @@ pub fn run_explorer(
             "config": spec.cfg.name,
             "alphabet_size": spec.alphabet.len(),
             "depth_requested": spec.depth,
+            "prefix": spec.prefix.iter().map(|o| format!("{o:?}")).collect::<Vec<_>>(),
             "stats": report::stats_json(&st),
         }));
         total.merge(&st);
@@ -123,7 +136,7 @@ pub fn replay_explorer(prop: &str, path: &str, specs: Vec<ExpSpec>, checker: &dy
     let mut ops = Vec::new();
     for o in r["ops"].as_array().cloned().unwrap_or_default() {
         let o = o.as_str().unwrap_or("").to_string();
-        match spec.alphabet.iter().find(|a| format!("{a:?}") == o) {
+        match spec.alphabet.iter().chain(spec.prefix.iter()).find(|a| format!("{a:?}") == o) {
             Some(a) => ops.push(a.clone()),
             None => {
                 eprintln!("MACHINERY ERROR: op {o} not in the alphabet of {cfgname}");
